@@ -300,14 +300,47 @@ type LoadMO struct{ MO }
 
 func (r *LoadMO) LoadConfig() ([]byte, error) { return r.load() }
 
+// NilMapLoader / NilSliceLoader: loaders whose Go kind is map / slice and whose VALUE is nil (an empty filter, say):
+// perfectly good participants.
+type NilMapLoader map[string]string
+type NilSliceLoader []string
+
+var nilLoaderLog *[]int
+var nilLoaderIDs [2]int
+
+func (NilMapLoader) LoadConfig() ([]byte, error) {
+	*nilLoaderLog = append(*nilLoaderLog, nilLoaderIDs[0])
+	return nil, nil
+}
+func (NilSliceLoader) LoadConfig() ([]byte, error) {
+	*nilLoaderLog = append(*nilLoaderLog, nilLoaderIDs[1])
+	return []byte("c12:\n  nil-slice-loader: seen\n"), nil
+}
+
 func TestLoaders(t *testing.T) {
 	kit.Rec.Rule(rule)
 	rapid.Check(t, func(t *rapid.T) {
 		specs := genSpecs(t, 16)
 		var log []int
+		nilLoaderLog = &log
+		nilKinds := rapid.IntRange(0, 3).Draw(t, "nilkindloaders") // bit 0: a nil map loader, bit 1: a nil slice loader
+		for k := 0; k < 2; k++ {
+			if nilKinds&(1<<k) != 0 {
+				nilLoaderIDs[k] = len(specs)
+				specs = append(specs, spec{Class: 2})
+			}
+		}
 		ls := make([]configure.Loader, len(specs))
 		for i, s := range specs {
 			pi := pinfo{id: i, class: s.Class, ord: s.Ord, log: &log}
+			if nilKinds&1 != 0 && i == nilLoaderIDs[0] {
+				ls[i] = NilMapLoader(nil)
+				continue
+			}
+			if nilKinds&2 != 0 && i == nilLoaderIDs[1] {
+				ls[i] = NilSliceLoader(nil)
+				continue
+			}
 			switch s.Class {
 			case 0:
 				ls[i] = &LoadPO{PO{pi}}
